@@ -346,8 +346,9 @@ class Engine:
         """continue path q in the post-state of contract outcome o (q already assumes o.cond)"""
         q.st = o.post.copy()
         for (r, clsn) in o.fresh:
-            clsterm = self.ct.Other if clsn == "<container>" else (self.ct.c(clsn) if isinstance(clsn, str) else clsn)
-            kind = "container" if clsn == "<container>" else "obj"
+            is_cont = isinstance(clsn, str) and clsn == "<container>"
+            clsterm = self.ct.Other if is_cont else (self.ct.c(clsn) if isinstance(clsn, str) else clsn)
+            kind = "container" if is_cont else "obj"
             q.assume(r != NONE)
             q.assume(r != T.QA_INVALID)
             q.assume(T.cls_of(r) == clsterm)
@@ -427,9 +428,7 @@ class Engine:
 
     def build_spec(self, c: Contract, S: State, args: dict, p: Path, site: str) -> Spec:
         def spec_alloc(cname_or_cls, name):
-            clsterm = self.ct.c(cname_or_cls) if isinstance(cname_or_cls, str) else cname_or_cls
-            if cname_or_cls == "<container>":
-                clsterm = self.ct.Other
+            pass
             r = T.fresh("spec_" + name, Ref)
             return r
         ctx = SpecCtx(S, args, spec_alloc, self.repo, site)
@@ -457,7 +456,8 @@ class Engine:
         tag = f"exit:{exc or 'return'}"
         for oi, o in enumerate(spec.outcomes):
             olabel = o.label or f"outcome{oi}"
-            matches = (o.exc is None and kind == "normal") or (o.exc is not None and kind == "raise" and exc_matches(exc, o.exc))
+            oexc = (o.exc,) if isinstance(o.exc, str) else (o.exc or ())
+            matches = (o.exc is None and kind == "normal") or (o.exc is not None and kind == "raise" and any(exc_matches(exc, e_) for e_ in oexc))
             if not matches:
                 # this outcome's condition must be impossible on this path
                 self.emit(p, "exit-kind", f"{tag}/not:{olabel}", T.neg(o.cond),
@@ -469,6 +469,11 @@ class Engine:
             q.assume(o.cond)
             # match allocations of the spec with those of the body
             subst = self.match_allocs(q, o, value)
+            if subst is not None:
+                body_enums = list(q.ghost.get("enums", ()))
+                for k_, (pe, _pred) in enumerate(spec.enums):
+                    if k_ < len(body_enums):
+                        subst = subst + [(pe, body_enums[k_])]
             if subst is None:
                 self.emit(q, "post", f"{tag}/{olabel}/alloc", z3.BoolVal(False),
                           meta={"clause": "the contract promises a fresh object that this path does not allocate"})
@@ -535,7 +540,7 @@ class Engine:
                     if r.eq(val_ref) and i not in used:
                         target = i
             if target is None:
-                want_container = (scls == "<container>")
+                want_container = isinstance(scls, str) and scls == "<container>"
                 for i, (r, c, k) in enumerate(body):
                     if i in used:
                         continue
@@ -792,9 +797,11 @@ class Engine:
     def check_inv(self, p: Path, inv: LoopInv, what: str, ls: LoopSpec, entry_st: State):
         """emit obligations that path p satisfies the invariant"""
         name = f"loop{ls.ordinal}/{what}"
-        if inv.defs:
+        if inv.defs or inv.ground_defs:
             p = p.copy()
             p.schemas.extend(inv.defs)
+            for g_ in inv.ground_defs:
+                p.assume(g_)
         for i, f in enumerate(inv.facts):
             self.emit(p, "loop", f"{name}/fact[{i}]", f, meta={"clause": f"loop invariant fact {i}"})
         for sch in inv.schemas:
@@ -854,6 +861,8 @@ class Engine:
             st0 = p.st.copy()
             p.schemas.append(Schema(f"enum({ref})", (Ref,), lambda x, s=s, ref=ref, st0=st0: z3.And(
                 T.Cnt(s, x) <= 1, (T.Cnt(s, x) >= 1) == st0.read("setmem", ref, x))))
+            p.ghost = dict(p.ghost)
+            p.ghost["enums"] = tuple(p.ghost.get("enums", ())) + (s,)
             return s, it.elem_cname
         raise Unsupported(f"iteration over {type(it).__name__}")
 
@@ -874,6 +883,8 @@ class Engine:
             q.assume(f)
         q.schemas.extend(inv.schemas)
         q.schemas.extend(inv.defs)
+        for g_ in inv.ground_defs:
+            q.assume(g_)
         if inv.out is not None:
             q.out = inv.out
 
@@ -924,9 +935,58 @@ class Engine:
             results.append((e, None))
         return results
 
+    def run_for_range(self, st, p: Path, start, stop, step: int):
+        """for i in range(start, stop, step) with a concrete non-zero step: index-based cut (ghost counter L.k)"""
+        ls = self.loop_spec(st)
+        entry_st = p.st.copy()
+        entry_env = dict(p.env)
+        if step > 0:
+            n = T.ite(stop > start, (stop - start + (step - 1)) / step, z3.IntVal(0))
+        else:
+            n = T.ite(start > stop, (start - stop + (-step - 1)) / (-step), z3.IntVal(0))
+
+        def mk(env, k, stt=None):
+            L = LoopCtx(env, entry_st, self.pre, None, None, None, self.args, self, k)
+            L.entry_env = entry_env
+            L.entry_out = p.out
+            L.cur = stt
+            L.n = n
+            return L
+        self.check_inv(p, ls.fn(mk(p.env, z3.IntVal(0), p.st)), "entry", ls, entry_st)
+        assigned = self.assigned_names(st)
+        results = []
+        q = p.copy()
+        q.trail.append(f"L{ls.ordinal}i")
+        k = T.fresh("k", Int)
+        q.assume(z3.And(k >= 0, k < n))
+        for nm in assigned:
+            if nm in q.env:
+                q.env[nm] = self.havoc_local(nm, q.env[nm])
+        self.assume_inv(q, ls.fn(mk(q.env, k)), entry_st)
+        if self.feasible(q):
+            self.bind_target(st.target, VInt(start + k * step), q)
+            for (r, ctrl) in self.exec_block(st.body, q):
+                if ctrl is None or ctrl[0] == "continue":
+                    self.check_inv(r, ls.fn(mk(r.env, k + 1, r.st)), "preserve", ls, entry_st)
+                elif ctrl[0] == "break":
+                    results.append((r, None))
+                else:
+                    results.append((r, ctrl))
+        e = p.copy()
+        e.trail.append(f"L{ls.ordinal}x")
+        for nm in assigned:
+            if nm in e.env:
+                e.env[nm] = self.havoc_local(nm, e.env[nm])
+        self.assume_inv(e, ls.fn(mk(e.env, n)), entry_st)
+        if self.feasible(e):
+            results.append((e, None))
+        return results
+
     def run_for(self, st, p: Path, it: V):
         if isinstance(it, VConst) and isinstance(it.value, tuple) and it.value[0] == "items":
             return self.run_for_items(st, p, it.value[1])
+        if isinstance(it, VConst) and isinstance(it.value, tuple) and it.value[0] == "range":
+            return self.run_for_range(st, p, *it.value[1:])
         ls = self.loop_spec(st)
         seq, ecn = self.iter_seq(p, it)
         if isinstance(it, VIter) and it.is_none is not None and not z3.is_false(it.is_none):
@@ -951,11 +1011,12 @@ class Engine:
         entry_env = dict(p.env)
         entry_out = p.out
 
-        def mk(env, prefix, elem=None, stt=None):
+        def mk(env, prefix, elem=None, stt=None, suffix=None):
             L = LoopCtx(env, entry_st, self.pre, prefix, seq, elem, self.args, self)
             L.entry_env = entry_env
             L.entry_out = entry_out
             L.cur = stt
+            L.suffix = suffix
             return L
         # 1. invariant holds at entry (prefix = [])
         inv0 = ls.fn(mk(p.env, T.EMPTY()))
@@ -975,7 +1036,7 @@ class Engine:
         for n in assigned:
             if n in q.env:
                 q.env[n] = self.havoc_local(n, q.env[n])
-        invk = ls.fn(mk(q.env, pre))
+        invk = ls.fn(mk(q.env, pre, elem=x, suffix=suf))
         self.assume_inv(q, invk, entry_st)
         if not self.feasible(q):
             body_res = []
